@@ -159,6 +159,18 @@ func genData(g *dgen) (basis, target []byte, inserted int64, nedits int) {
 				break
 			}
 			target = append(target, basis[pos:e.Off]...)
+			if e.Op == "wk" {
+				// a 3-byte change that keeps BOTH halves of the weak checksum of every window containing it
+				// (+1, -2, +1): the block it lies in becomes a "false alarm" for the sender (weak hit, strong miss)
+				if e.Off+3 > len(basis) {
+					break
+				}
+				target = append(target, basis[e.Off]+1, basis[e.Off+1]-2, basis[e.Off+2]+1)
+				inserted += 3
+				pos = e.Off + 3
+				nedits++
+				continue
+			}
 			target = append(target, rnd(e.M)...)
 			inserted += int64(e.M)
 			pos = min(e.Off+e.N, len(basis))
